@@ -583,16 +583,18 @@ def cmd_convcases(mods, inp, out):
     cached-children wrapper (the model says those are always right)."""
     can_fail = {}
     trees = {}
+    only = {}
     for c in lines(inp):
-        key = json.dumps(c["tree"], sort_keys=True)
+        key = json.dumps(c["tree"], sort_keys=True) + "|" + ",".join(c.get("kinds", []))
         trees[key] = c["tree"]
+        only[key] = c.get("kinds")
         can_fail[key] = can_fail.get(key, False) or (not c["correct"])
     n = 0
     wrong_fresh = 0
     for key, tj in trees.items():
         t = tree_from_json(tj)
         classic = bytes(program_of(mods[1], t))
-        for kind in ["lazynode", "fresh", "program", "clvmtree", "stable", "mixed_d1", "mixed_similar"]:
+        for kind in only[key] or ["lazynode", "fresh", "program", "clvmtree", "stable", "mixed_d1", "mixed_similar"]:
             n += 1
             r = conv_one(mods, kind, t, classic)
             want = tree_from_json(r["src"]) if "src" in r else t
